@@ -42,7 +42,9 @@
 #include <mujoco/mjxmacro.h>
 #include "mjbuild.h"
 
-#if defined(__SANITIZE_ADDRESS__)
+// (the check builds the sanitizer variant with -DC31_SANITIZE: with gcc it has to undefine __SANITIZE_ADDRESS__
+// for the tree's mjsan.h, see checks/c31.py asan_variant)
+#if defined(__SANITIZE_ADDRESS__) || defined(C31_SANITIZE)
 #include <sanitizer/lsan_interface.h>
 #define HAVE_LSAN 1
 #else
@@ -334,6 +336,13 @@ bad:
   return NULL;
 }
 
+// overwrite the dead stack frames of the load so that a leaked block is not kept "reachable" by a stale
+// stack slot when the leak checker scans conservatively
+__attribute__((noinline)) static void clobber_stack(void) {
+  volatile unsigned char junk[65536];
+  for (size_t i = 0; i < sizeof junk; i++) junk[i] = 0;
+}
+
 // runs in a worker: result text goes to fd (the caller terminates the line); returns 1 when the worker
 // should retire (a leak was reported: later reports would repeat it)
 static int child_load(const unsigned char* buf, int n, int fd, int with_oracle) {
@@ -347,6 +356,9 @@ static int child_load(const unsigned char* buf, int n, int fd, int with_oracle) 
   if (n > 0) memcpy(priv, buf, (size_t)n);
   alloc_seq = 0; model_block = NULL;
   mjModel* m = mj_loadModelBuffer(priv, n);
+  clobber_stack();
+  if (model_block && canary_hit(model_block)) { wr(fd, "crash canary=overwritten\n"); _exit(0); }
+  model_block = NULL;   // (a leaked buffer must not stay reachable through this bookkeeping pointer)
   char nb[48];
   if (alloc_seq >= 2) snprintf(nb, sizeof nb, " nbuf=%zu", alloc_second); else snprintf(nb, sizeof nb, " nbuf=-");
   if (!m) {
@@ -355,6 +367,7 @@ static int child_load(const unsigned char* buf, int n, int fd, int with_oracle) 
     free(priv);
 #if HAVE_LSAN
     stage = "leakcheck";
+    clobber_stack();
     if (__lsan_do_recoverable_leak_check()) { wr(fd, " ; leak=1"); retire = 1; }
 #endif
     alarm(0);
@@ -393,6 +406,7 @@ static int child_load(const unsigned char* buf, int n, int fd, int with_oracle) 
   free(priv);
 #if HAVE_LSAN
   stage = "leakcheck";
+  clobber_stack();
   if (__lsan_do_recoverable_leak_check()) { wr(fd, with_oracle ? " leak=1" : " ; leak=1"); retire = 1; }
 #endif
   alarm(0);
@@ -564,10 +578,21 @@ static void set_model(mjModel* m) {
   free(IMG); IMG = NULL; IMGN = 0;
   M = m;
   if (m) {
+    // The number of bytes mj_saveModel writes is measured, not taken from mj_sizeModel: the model is saved
+    // twice into buffers (with 64 bytes of slack) pre-filled with different patterns; the written prefix is
+    // where the two agree.
     mjtSize sz = mj_sizeModel(m);
-    IMG = (unsigned char*)malloc((size_t)sz);
-    IMGN = (int)sz;
-    mj_saveModel(m, NULL, IMG, IMGN);
+    size_t cap = (size_t)(sz > 0 ? sz : 0) + 64;
+    unsigned char* a = (unsigned char*)malloc(cap);
+    unsigned char* b = (unsigned char*)malloc(cap);
+    memset(a, 0xAA, cap); memset(b, 0x55, cap);
+    mj_saveModel(m, NULL, a, (int)cap);
+    mj_saveModel(m, NULL, b, (int)cap);
+    size_t n = 0;
+    while (n < cap && a[n] == b[n]) n++;
+    free(b);
+    IMG = a;
+    IMGN = (int)n;
   }
 }
 
